@@ -225,7 +225,8 @@ def classify(prop: str, violations: dict[str, dict[str, Any]]) -> tuple[list[tup
     unlisted: list[dict] = []
     for key in sorted(violations):
         v = violations[key]
-        ent = next((e for e in known if fnmatch.fnmatchcase(key, e["key"])), None)
+        # exact keys first (a key may contain '[' ... ']', which fnmatch reads as a character class)
+        ent = next((e for e in known if e["key"] == key), None) or next((e for e in known if fnmatch.fnmatchcase(key, e["key"])), None)
         if ent is not None:
             listed.append((ent, v))
         else:
